@@ -196,7 +196,7 @@ func c09Keys(in *c09Inst) map[string]bool {
 func (c *c09Ctx) issue(in *c09Inst, origin string, T time.Time, idTTL time.Duration) (*c09Cred, error) {
 	T = T.Truncate(time.Second)
 	before := c09Keys(in)
-	sess := &c09Sess{In: in, Origin: origin, HasRT: origin == "oidc" || origin == "oidc-large"}
+	sess := &c09Sess{In: in, Origin: origin, HasRT: origin == "oidc" || origin == "oidc-large" || origin == "oidc-badrt"}
 	var resp *vfResp
 	var req *vfReq
 	switch origin {
@@ -211,6 +211,18 @@ func (c *c09Ctx) issue(in *c09Inst, origin string, T time.Time, idTTL time.Durat
 		id := vfStdIdentity
 		id.Sub = fmt.Sprintf("u-%d", atomic.AddInt64(&c.seq, 1))
 		id.NoRefreshToken = origin == "oidc-nort"
+		if origin == "oidc-badrt" {
+			// the session gets a refresh token the IdP will refuse for ever (and tokens that outlive short cookie lifetimes by far):
+			// nothing can really refresh it, so it must die cookie-expire after its login
+			in.W.IdP.Set(func(cf *vfIdPCfg) {
+				cf.TokenResponseMutate = func(grant string, resp map[string]interface{}) {
+					if grant == "code" {
+						resp["refresh_token"] = "rt-never-issued-" + id.Sub
+					}
+				}
+			})
+			defer in.W.IdP.Set(func(cf *vfIdPCfg) { cf.TokenResponseMutate = nil })
+		}
 		if origin == "oidc-large" { // cookie store: the session is split over several cookies
 			id.Extra = map[string]interface{}{"blob": vfRandHex(2600)}
 		}
@@ -328,6 +340,12 @@ func c09Want(cr *c09Cred, t0, t1 time.Time) (string, string) {
 		if !t1.Before(cr.Sess.TokenExpLow) {
 			return "unjudged", "" // the ID token may have expired: the property does not demand service
 		}
+		if cr.Kind == "reissued-without-refresh-grant" {
+			return "unjudged", "" // only the rejection side is demanded of a cookie that should not have been re-issued (its stamp may be an imposed future time)
+		}
+		if cr.Sess.Origin == "htpasswd" && cr.Sess.In.Refresh > 0 {
+			return "unjudged", "" // a token-less form session is ended by the provider re-validation at the first refresh period (earlier than the rule demands)
+		}
 		if bucket != "far" {
 			cell = fmt.Sprintf("%s|%s|inside|%s|E=%s", cr.Sess.In.Store, kind, bucket, E)
 		}
@@ -349,6 +367,7 @@ func (c *c09Ctx) probe(cr *c09Cred, channel string, mock *time.Time) c09Result {
 	in := cr.Sess.In
 	id := fmt.Sprintf("c09-%d", atomic.AddInt64(&c.seq, 1))
 	req := vfGET(channel, "Cookie", cr.Cookie, "X-Vf-Id", id)
+	_, grants0 := c.w.IdP.RefreshGrants() // sequential driver: refresh grants between the two readings belong to this request
 	if mock != nil {
 		clock.Set(*mock)
 	}
@@ -400,7 +419,13 @@ func (c *c09Ctx) probe(cr *c09Cred, channel string, mock *time.Time) c09Result {
 		c.run.Count("refresh_reissues", 1)
 		c.checkTTL(cr.Sess, where, req)
 		nc := &c09Cred{Sess: cr.Sess, Cookie: c09CookieHeader(sets)}
-		if mock != nil {
+		if _, grants1 := c.w.IdP.RefreshGrants(); grants1 == grants0 {
+			// the session was re-issued although the identity provider granted no refresh during this request: nothing was
+			// refreshed, so the lifetime still counts from the last REAL (re)issue — the new cookie inherits the old stamp
+			nc.S, nc.Kind = cr.S, "reissued-without-refresh-grant"
+			c.run.Count("reissues_without_refresh_grant", 1)
+			res.New = nc
+		} else if mock != nil {
 			nc.S, nc.Kind = mock.Truncate(time.Second), "mock-refresh"
 			cr.Sess.LastRestamp = nc.S
 			res.New = nc
@@ -441,7 +466,9 @@ func (c *c09Ctx) probe(cr *c09Cred, channel string, mock *time.Time) c09Result {
 		if want == "accept" {
 			sig, what = "c09:refused-inside-window", "REFUSED"
 		}
-		if cr.Kind != "issued" {
+		if cr.Kind == "reissued-without-refresh-grant" {
+			sig += "-after-reissue-without-refresh-grant"
+		} else if cr.Kind != "issued" {
 			sig += "-after-refresh"
 		}
 		c.run.Violation(sig, fmt.Sprintf("%s (%s, %s credential%s): stamp %s, probe bracket [%s .. +%s], age at t0 %s, lifetime %s: request %s (status %d on %s)",
@@ -532,9 +559,7 @@ func TestVerif_C09(t *testing.T) {
 				if store == "redis" {
 					flags = append(flags, "--redis-connection-url="+w.RedisURL())
 				}
-				if r == 0 {
-					flags = append(flags, "--htpasswd-file="+ht)
-				}
+				flags = append(flags, "--htpasswd-file="+ht)
 				p, err := w.NewProxy(flags...)
 				if err != nil {
 					t.Fatalf("C09 rig: %v: %v", flags, err)
@@ -563,9 +588,7 @@ func TestVerif_C09(t *testing.T) {
 			if store == "redis" {
 				flags = append(flags, "--redis-connection-url="+w.RedisURL())
 			}
-			if r == 0 {
-				flags = append(flags, "--htpasswd-file="+ht)
-			}
+			flags = append(flags, "--htpasswd-file="+ht)
 			p, err := w.NewProxy(flags...)
 			if err != nil {
 				t.Fatalf("C09 rig: %v: %v", flags, err)
@@ -730,8 +753,39 @@ func c09RefreshHistories(c *c09Ctx, insts []*c09Inst) []*c09Cred {
 			func(T, now time.Time) time.Time { return T.Add(in.Refresh + 2*time.Second) }, "oidc"})
 		// real-time refresh: T = now-refresh-2 (stale now), refreshed by the first probe at R in [t0,t1]
 		hists = append(hists, hist{"real-time refresh", func(now time.Time) time.Time { return base(now).Add(-in.Refresh - 2*time.Second) }, nil, "oidc"})
+		// a refresh token the IdP refuses: nothing can be refreshed, the session ends cookie-expire after its login
+		hists = append(hists, hist{"refresh refused by the IdP, T=now-expire+3s", func(now time.Time) time.Time { return base(now).Add(-in.Expire + 3*time.Second) }, nil, "oidc-badrt"})
+		hists = append(hists, hist{"refresh refused by the IdP, T=now-expire+4s, mocked clock one refresh period on",
+			func(now time.Time) time.Time { return base(now).Add(-in.Expire + 4*time.Second) },
+			func(T, now time.Time) time.Time { return T.Add(in.Refresh + time.Second) }, "oidc-badrt"})
 		// without a refresh token nothing is restamped: the stale credential keeps its window
 		hists = append(hists, hist{"no refresh token, T=now-expire+3s", func(now time.Time) time.Time { return base(now).Add(-in.Expire + 3*time.Second) }, nil, "oidc-nort"})
+		// htpasswd form session used once per refresh period (mocked clock) up to and beyond cookie-expire: whatever the loader
+		// does with it at each period, nothing refreshes it at the IdP, so it is never honoured past login + cookie-expire
+		{
+			T := time.Now().Truncate(time.Second).Add(-in.Expire + 3*time.Second)
+			cur, err := c.issue(in, "htpasswd", T, 0)
+			if err != nil {
+				c.run.T.Fatalf("C09 rig: %s htpasswd chain: %v", in, err)
+			}
+			cur.Note = "history htpasswd form session, one request per refresh period"
+			pending = append(pending, cur)
+			for i := 1; i <= 4; i++ {
+				M := T.Add(time.Duration(i) * (in.Refresh + time.Second))
+				if M.Sub(time.Now()) > c09Future-10*time.Second {
+					break
+				}
+				chn++
+				res := c.probe(cur, c09Channels[chn%len(c09Channels)], &M)
+				c.run.Count("htpasswd_refresh_chain_steps", 1)
+				if res.New != nil {
+					cur.Old = true
+					res.New.Note = cur.Note + fmt.Sprintf(" (re-issued at step %d)", i)
+					cur = res.New
+					pending = append(pending, cur)
+				}
+			}
+		}
 		for _, h := range hists {
 			for attempt := 0; attempt < 4; attempt++ {
 				now := time.Now()
